@@ -623,12 +623,16 @@ func (gen *Generator) GenerateInclude(args []Sexp) error {
 				expr = list.Tail
 			}
 		case *SexpStr:
-			exps, err = gen.env.ParseFile(t.S)
-			if err != nil {
+			// a file can include itself: count the nesting
+			// (see MaxNestDepth).
+			if err := gen.env.enterNest("include of '" + t.S + "'"); err != nil {
 				return err
 			}
-
-			err = gen.GenerateBegin(exps)
+			exps, err = gen.env.ParseFile(t.S)
+			if err == nil {
+				err = gen.GenerateBegin(exps)
+			}
+			gen.env.leaveNest()
 			if err != nil {
 				return err
 			}
@@ -716,6 +720,13 @@ func (gen *Generator) GenerateCallBySymbol(sym *SexpSymbol, args []Sexp, orig Se
 	// this is where macros are run
 	macro, found := gen.env.macros[sym.number]
 	if found {
+		// the expansion is compiled below, and can contain a call
+		// of the same macro: count the nesting (see MaxNestDepth).
+		if err := gen.env.enterNest("expansion of macro '" + sym.name + "'"); err != nil {
+			return err
+		}
+		defer gen.env.leaveNest()
+
 		// calling Apply on the current environment will screw up
 		// the stack, creating a duplicate environment is safer
 		env := gen.env.Duplicate()
